@@ -61,6 +61,14 @@ func c13Server(nsubs, nemit int) {
 		sym.Assert(len(out) == 1 && out[0].Header.Type == net.Reply, "unregister-acknowledged")
 		s.live = false
 	}
+	// connection 0 may be broken without the server knowing yet: every write to it fails (not with
+	// EOF); the subscribers of the other connection are not disturbed
+	broken := sym.Bool("connection-0-broken")
+	if broken {
+		streams[0].mu.Lock()
+		streams[0].failFrom = streams[0].writes + 1
+		streams[0].mu.Unlock()
+	}
 	marks := []int{len(streams[0].sentMessages()), len(streams[1].sentMessages())}
 	type emission struct {
 		signal uint32
@@ -70,12 +78,18 @@ func c13Server(nsubs, nemit int) {
 	for e := 0; e < nemit; e++ {
 		em := emission{sym.U32("emit-signal"), sym.Bytes("emit-data", 1)}
 		ems = append(ems, em)
-		sym.Assert(h.UpdateSignal(em.signal, em.data) == nil, "emit-ok")
+		err := h.UpdateSignal(em.signal, em.data)
+		if !broken {
+			sym.Assert(err == nil, "emit-ok")
+		}
 	}
 	// per connection: the Event frames must be exactly, in order: for each emission, one per live
 	// subscriber of that signal on this connection (in some order within one emission)
 	for c := 0; c < 2; c++ {
 		out := streams[c].sentMessages()[marks[c]:]
+		if broken && c == 0 {
+			continue // nothing can be said about a connection that does not work
+		}
 		pos := 0
 		for _, em := range ems {
 			var want []*zzSub
@@ -288,6 +302,10 @@ func C13Resubscribe() {
 	sym.Assert(ch.Authenticate() == nil, "client-authenticated")
 	proxy := NewProxy(NewClient(ch), object.FullMetaObject(meta), service.ServiceID(), 1)
 	front := o.front.(*stubObject)
+	if sym.Bool("method-statistics-enabled") {
+		// with statistics on, every incoming message is handled through a fresh wrapper of the connection
+		sym.Assert(front.impl.EnableStats(true) == nil, "enable-stats")
+	}
 	registrations := func() int {
 		front.signal.signalsMutex.RLock()
 		defer front.signal.signalsMutex.RUnlock()
@@ -314,6 +332,10 @@ func C13Resubscribe() {
 	sym.Reach("resubscribe-done")
 }
 
+// zzWithStats makes zzEmitterSetup enable the object's method statistics (every incoming message is
+// then handled through a fresh wrapper of the connection).
+var zzWithStats bool
+
 // zzEmitterSetup: a real server with an emitter object (signals 200/201, property 300) and a real
 // client proxy to it over an in-process pipe.
 func zzEmitterSetup() (*zzObj, Proxy, func() int) {
@@ -333,6 +355,9 @@ func zzEmitterSetup() (*zzObj, Proxy, func() int) {
 	sym.Assert(ch.Authenticate() == nil, "client-authenticated")
 	proxy := NewProxy(NewClient(ch), object.FullMetaObject(meta), service.ServiceID(), 1)
 	front := o.front.(*stubObject)
+	if zzWithStats {
+		front.impl.EnableStats(true)
+	}
 	registrations := func() int {
 		front.signal.signalsMutex.RLock()
 		defer front.signal.signalsMutex.RUnlock()
